@@ -1,27 +1,12 @@
 """Checks of the sequencer family (C01-C04, C06-C08, C17): one recorded corpus
-of scenarios per (tree under test, tier, seed), validated by TLC against
-SunlightTraceA.tla; each property looks at its own formulas. The model
-Sunlight.tla is checked exhaustively in a bounded configuration per property."""
-import fcntl
-import json
-import os
+of scenarios of the real sequencer (harness/sim), validated by TLC against
+SunlightTraceA.tla; the model Sunlight.tla is checked exhaustively in bounded
+configurations per property."""
 import re
-import shutil
-import subprocess
-import sys
-import time
 
-import vlib
-from vlib import Inconclusive, log
+import tracefam
 
 FAMILY = ["C01", "C02", "C03", "C04", "C06", "C07", "C08", "C17"]
-
-# scenario families whose traces each property needs (all of them are validated
-# against all formulas; this only says which must be present)
-GO_FAMILIES = "happy,crash,subsets,fault,recrash,instances,startup,dedup,tamper,pool,clock,http"
-
-# formulas of other ids that a property also reports (none: strict attribution)
-PREFIX = {p: p + "." for p in FAMILY}
 
 # property -> tier -> list of (cfg, expected) where expected is "ok" or the name
 # of the formula the configuration is expected to refute (a documented finding
@@ -39,243 +24,22 @@ MODEL_CFG = {
 }
 
 
-def corpus_dir(tier, sd):
-    key = "%s-%s-%s-s%d%s" % (vlib.repo_hash(), vlib.harness_hash(), tier, sd, ("-" + vlib.hashlib.sha256(os.environ["VERIF_ONLY"].encode()).hexdigest()[:8]) if os.environ.get("VERIF_ONLY") else "")
-    return os.path.join(vlib.WORK, "corpus", key)
+def also(prop, formula, scenario):
+    # the multi-instance property also owns append-only history and complete
+    # storage in the scenarios with several instances
+    return prop == "C06" and bool(re.match(r"(instances|startup)/", scenario)) and \
+        formula in ("C01.PubAppendOnly", "C01.LockAppendOnly", "C04.PubBacked", "C01.PublishedWasLocked")
 
 
-def prune_corpora(keep):
-    root = os.path.join(vlib.WORK, "corpus")
-    if not os.path.isdir(root):
-        return
-    ds = sorted((os.path.getmtime(os.path.join(root, d)), d) for d in os.listdir(root))
-    for _, d in ds[:-6]:
-        p = os.path.join(root, d)
-        if p != keep:
-            shutil.rmtree(p, ignore_errors=True)
-
-
-def record_corpus(tier, sd):
-    """Builds the harness against the tree under test and records the corpus with
-    one process per core. Returns (dir, info)."""
-    d = corpus_dir(tier, sd)
-    os.makedirs(os.path.dirname(d), exist_ok=True)
-    lock = open(d + ".lock", "w")
-    fcntl.flock(lock, fcntl.LOCK_EX)
-    try:
-        done = os.path.join(d, "DONE")
-        if os.path.exists(done):
-            info = json.load(open(done))
-            info["reused"] = True
-            return d, info
-        shutil.rmtree(d, ignore_errors=True)
-        os.makedirs(d)
-        t0 = time.time()
-        binp = os.path.join(d, "sim.test")
-        vlib.build_test_binary("./sim/", binp)
-        shards = min(vlib.NCPU, 16)
-        procs = []
-        for i in range(shards):
-            env = dict(os.environ, VERIF_OUT=os.path.join(d, "shard%02d.ndjson" % i), VERIF_TIER=tier,
-                       VERIF_SEED=str(sd), VERIF_SHARD="%d/%d" % (i, shards), TMPDIR=os.path.join(d, "tmp%d" % i))
-            os.makedirs(env["TMPDIR"])
-            out = open(os.path.join(d, "shard%02d.log" % i), "w")
-            procs.append((subprocess.Popen([binp, "-test.run", "TestCorpus", "-test.v", "-test.timeout", "3h"],
-                                           cwd=d, env=env, stdout=out, stderr=subprocess.STDOUT), out))
-        failed = []
-        for i, (p, out) in enumerate(procs):
-            try:
-                rc = p.wait(timeout=3 * 3600)
-            except subprocess.TimeoutExpired:
-                p.kill()
-                rc = -9
-            out.close()
-            if rc != 0:
-                failed.append(i)
-        scen = 0
-        herr = []
-        for i in range(shards):
-            txt = open(os.path.join(d, "shard%02d.log" % i), errors="replace").read()
-            m = re.search(r"CORPUS scenarios=(\d+) ran=(\d+) events=(\d+) harnessErrors=(\d+)", txt)
-            if m:
-                scen = max(scen, int(m.group(1)))
-            herr += re.findall(r"HARNESS-ERROR (.*)", txt)
-        if failed:
-            tail = open(os.path.join(d, "shard%02d.log" % failed[0]), errors="replace").read()[-3000:]
-            raise Inconclusive("harness shard(s) %s did not finish cleanly:\n%s" % (failed, tail))
-        # concatenate
-        trace = os.path.join(d, "corpus.ndjson")
-        n = 0
-        with open(trace, "w") as out:
-            for i in range(shards):
-                p = os.path.join(d, "shard%02d.ndjson" % i)
-                if os.path.exists(p):
-                    for line in open(p):
-                        out.write(line)
-                        n += 1
-                    os.remove(p)
-            out.write(json.dumps({"ev": "End", "seq": 0, "inst": ""}) + "\n")
-        for i in range(shards):
-            vlib.rmtree(os.path.join(d, "tmp%d" % i))
-        os.remove(binp)
-        info = {"scenarios": scen, "events": n, "harness_errors": herr, "record_s": round(time.time() - t0, 1), "reused": False}
-        json.dump(info, open(done, "w"))
-        prune_corpora(d)
-        return d, info
-    finally:
-        fcntl.flock(lock, fcntl.LOCK_UN)
-        lock.close()
-
-
-def validate(d, wd):
-    """Runs TLC over the corpus; returns (reports, states, transitions, output)."""
-    cache = os.path.join(d, "tlc.json")
-    if os.path.exists(cache):
-        c = json.load(open(cache))
-        return [(a, [tuple(x) for x in b]) for a, b in c["reports"]], c["states"], c["transitions"], c["accepted"]
-    rc, out, td = vlib.tlc("SunlightTraceA.tla", "SunlightTraceA.cfg", wd, workers=1,
-                           env={"VERIF_TRACE": os.path.join(d, "corpus.ndjson")}, timeout=3600, xmx="8g")
-    states, trans = vlib.tlc_stats(out)
-    accepted = "TRACE-END" in out and rc == 0
-    if not accepted:
-        open(os.path.join(d, "tlc.out"), "w").write(out)
-        raise Inconclusive("trace validation did not consume the corpus (TLC rc=%d); output in %s" % (rc, os.path.join(d, "tlc.out")))
-    reps = vlib.scenario_reports(out)
-    json.dump({"reports": reps, "states": states, "transitions": trans, "accepted": accepted}, open(cache, "w"))
-    shutil.rmtree(td, ignore_errors=True)
-    return reps, states, trans, accepted
-
-
-def scenario_lines(d, name):
-    """Returns the trace lines of one scenario."""
-    out = []
-    on = False
-    for line in open(os.path.join(d, "corpus.ndjson")):
-        if line.startswith('{"ev":"Reset"') or '"ev":"Reset"' in line[:400] and '"scenario"' in line:
-            r = json.loads(line)
-            on = r.get("scenario") == name
-        elif '"ev":"End"' in line:
-            on = False
-        if on:
-            out.append(json.loads(line))
-    return out
-
-
-def model_check(prop, tier, wd):
-    """Runs the property's bounded configurations of Sunlight.tla. Results are
-    cached per (spec sources, cfg): the model does not depend on the tree under
-    test."""
-    runs = []
-    cdir = os.path.join(vlib.WORK, "modelcache")
-    os.makedirs(cdir, exist_ok=True)
-    spechash = vlib.hash_tree([vlib.SPEC])
-    for cfg, expect in MODEL_CFG[prop][tier]:
-        if not os.path.exists(os.path.join(vlib.SPEC, cfg)):
-            continue
-        cpath = os.path.join(cdir, "%s-%s.json" % (cfg, spechash))
-        if os.path.exists(cpath) and not os.environ.get("VERIF_NO_MODEL_CACHE"):
-            res = json.load(open(cpath))
-            res["cached"] = True
-            runs.append(res)
-            continue
-        t0 = time.time()
-        rc, out, td = vlib.tlc("Sunlight.tla", cfg, wd, workers=vlib.NCPU, timeout=3 * 3600, xmx="14g")
-        states, trans = vlib.tlc_stats(out)
-        res = {"cfg": cfg, "states": states, "transitions": trans, "wall_s": round(time.time() - t0, 1),
-               "expected": expect, "cached": False}
-        m = re.search(r"(Invariant|Temporal property|Action property) (\S+) (is|was) violated", out)
-        if expect == "ok":
-            res["ok"] = rc == 0 and not m
-        else:
-            res["ok"] = bool(m) and m.group(2) == expect
-            res["refuted"] = m.group(2) if m else None
-        if not res["ok"]:
-            res["error"] = m.group(0) if m else "rc=%d" % rc
-            op = os.path.join(vlib.WORK, "model-%s.out" % cfg)
-            open(op, "w").write(out)
-            res["output"] = op
-        else:
-            json.dump(res, open(cpath, "w"))
-        shutil.rmtree(td, ignore_errors=True)
-        runs.append(res)
-    if not runs:
-        return None
-    return {"cfg": ",".join(r["cfg"] for r in runs), "states": sum(r["states"] for r in runs),
-            "transitions": sum(r["transitions"] for r in runs), "ok": all(r["ok"] for r in runs),
-            "runs": runs, "error": "; ".join(r.get("error", "") for r in runs if not r["ok"]),
-            "output": "; ".join(r.get("output", "") for r in runs if not r["ok"])}
-
-
-LEVEL_TEXT = "model_checking"
+FAM = tracefam.Family(
+    name="sunlight", pkg="./sim/", trace_spec="SunlightTraceA.tla", trace_cfg="SunlightTraceA.cfg",
+    model_spec="Sunlight.tla", model_cfg=MODEL_CFG, props=FAMILY, also=also,
+    assumptions=[
+        "SHA-256 collision resistance (root hash <-> leaf sequence)",
+        "in-memory object and lock stores of the harness implement the Backend/LockBackend contracts",
+        "faults are applied-or-not outcomes of single operations",
+        "TLC, CommunityModules, testing/synctest"])
 
 
 def run(prop, tier):
-    t0 = time.time()
-    sd = vlib.seed()
-    wd = vlib.workdir("chk-" + prop)
-    violations, known = [], []
-    try:
-        d, info = record_corpus(tier, sd)
-        reps, tstates, ttrans, _ = validate(d, wd)
-        pref = PREFIX[prop]
-
-        def relevant(f, name):
-            if f.startswith(pref):
-                return True
-            # the multi-instance property also owns append-only history and
-            # complete storage in the scenarios with several instances
-            return prop == "C06" and re.match(r"(instances|startup)/", name) and \
-                f in ("C01.PubAppendOnly", "C01.LockAppendOnly", "C04.PubBacked", "C01.PublishedWasLocked")
-        nscen = len(reps)
-        samples = []
-        perFormula = {}
-        for name, viols in reps:
-            mine = [(f, l) for f, l in viols if relevant(f, name)]
-            for f, line in mine:
-                perFormula[f] = perFormula.get(f, 0) + 1
-                if perFormula[f] > 3 and not vlib.match_finding(prop, f, name):
-                    continue  # three replays per formula are enough; the count is in the evidence
-                kf = vlib.match_finding(prop, f, name)
-                if kf:
-                    known.append("%s formula=%s scenario=%s" % (kf["what"], f, name))
-                    continue
-                lines = scenario_lines(d, name)
-                path = vlib.write_replay(prop, name + "--" + f, {
-                    "property": prop, "formula": f, "scenario": name, "tier": tier, "seed": sd,
-                    "violating_line_in_corpus": line,
-                    "how_to_replay": "VERIF_ONLY='%s' VERIF_TIER=%s VERIF_SEED=%d bin/check %s %s" % (name, tier, sd, prop, tier),
-                    "trace": lines})
-                violations.append(("formula %s false in scenario %s" % (f, name), path))
-        for name, viols in reps[:3]:
-            samples.append({"scenario": name, "violated": [f for f, _ in viols]})
-        mc = model_check(prop, tier, wd)
-        inconclusive = None
-        if mc is not None and not mc["ok"]:
-            # the model is the design: a failure here is not a verdict about the code
-            log("MODEL-CHECK-FAILED %s %s (see %s)" % (mc["cfg"], mc.get("error"), mc.get("output")))
-            inconclusive = "model configuration %s failed: %s" % (mc["cfg"], mc.get("error"))
-        cov = {
-            "states": (mc or {}).get("states", 0) or tstates,
-            "transitions": (mc or {}).get("transitions", 0) or ttrans,
-            "traces_validated_against_impl": nscen,
-            "samples": samples,
-            "model": mc,
-            "trace_validation": {"scenarios": nscen, "events": info["events"], "tlc_states": tstates,
-                                 "corpus_reused": info.get("reused", False), "record_s": info.get("record_s")},
-            "violated_formulas": perFormula,
-            "harness_errors": info.get("harness_errors", [])[:20],
-            "exhaustive": False,
-        }
-        vlib.write_evidence(prop, tier, "model_checking", cov, time.time() - t0, len(violations), [
-            "SHA-256 collision resistance (root hash <-> leaf sequence)",
-            "in-memory object and lock stores of the harness implement the Backend/LockBackend contracts",
-            "faults are applied-or-not outcomes of single operations",
-            "TLC, CommunityModules, testing/synctest"])
-        if info.get("harness_errors") and not violations:
-            inconclusive = inconclusive or ("%d scenario(s) did not run to their end: %s" % (len(info["harness_errors"]), info["harness_errors"][0]))
-        vlib.finish(prop, violations, known, inconclusive)
-    except Inconclusive as e:
-        log("INCONCLUSIVE property=%s %s" % (prop, e))
-        sys.exit(2)
-    finally:
-        vlib.rmtree(wd)
+    tracefam.run(FAM, prop, tier)
